@@ -7,7 +7,7 @@ Next == /\ l <= Len(TraceLog) /\ l' = l + 1
         /\ LET ev == TraceLog[l] IN
            IF ev.e = "Reset" THEN TRUE
            ELSE IF Problems(ev) = {} THEN TRUE
-           ELSE Verdict("bad", l, ev.sc, <<Problems(ev), ev.c>>)
+           ELSE Verdict("bad", l, ev.sc, <<Problems(ev), IF "c" \in DOMAIN ev THEN ev.c ELSE ev.e>>)
 Spec == Init /\ [][Next]_l
 Accepted == LET d == TLCGet("stats").diameter IN PrintT(<<"DEPTH", d>>) /\ d - 1 = Len(TraceLog)
 =============================================================================
